@@ -5,6 +5,8 @@ CONSTANTS
   VarLong = 3
   Padding = FALSE
   RelFpuOK = FALSE
+  Pages = {}
+  PageReset = TRUE
   SelfKinds = {"labs", "lvar", "lrel"}
   Labels = {"la", "lb", "lc"}
   MaxItems = 12
